@@ -463,10 +463,36 @@ def lifecycle(ctx, res):
     # _init_trait_observers handles exactly the not-post_init states
     for meth, want in (("_init_trait_observers", "not state['post_init']"),
                        ("_post_init_trait_observers", "state['post_init']")):
-        f2 = repo.func(HT, f"HasTraits.{meth}")
-        tests = [norm(i.test) for i in ast.walk(f2) if isinstance(i, ast.If)]
-        res.oblige(tests == [want], f"{meth}:selector", mod.loc(f2),
-                   f"{meth} selects states with {tests}; expected [{want}]")
+        f2 = repo.inlined(HT, f"HasTraits.{meth}")
+        from ..cfg import enumerate_paths
+        from ..pycfg import build_cfg
+        g2 = build_cfg(f2, meth)
+        want_true = not want.startswith("not ")
+        seen_pol = set()
+        for path in enumerate_paths(g2, max_paths=5000):
+            pol = None
+            for nid, lab in path:
+                nd = g2.nodes[nid]
+                a = nd.ast
+                if a is None:
+                    continue
+                if nd.kind == "cond":
+                    if norm(a).endswith("['post_init']") and lab in ("T", "F"):
+                        pol = (lab == "T")
+                    continue
+                if nd.kind in ("fornext", "foriter"):
+                    if nd.kind == "fornext":
+                        pol = None      # next state: nothing tested yet
+                    continue
+                if any(isinstance(c, ast.Call) and norm(c.func).endswith(
+                        "apply_observers") for c in ast.walk(a)):
+                    seen_pol.add(pol)
+        if not seen_pol:
+            raise AnalysisError(f"{meth}: apply_observers not reached")
+        res.oblige(seen_pol == {want_true}, f"{meth}:selector", mod.loc(f2),
+                   f"{meth} installs observers for states whose "
+                   f"`post_init` is {sorted(map(str, seen_pol))} (None = "
+                   f"untested); expected exactly [{want}]")
     res.floor(4)
 
 
